@@ -78,7 +78,9 @@ package engine
 //@ ensures [created-once] calls(newInstance) == 1 && arg_ok
 //@ ensures [closed-iff-created] imp(result_of(newInstance, 1) == nil, calls(instance.Close) == 1)
 //@ ensures [creation-error-is-returned] imp(result_of(newInstance, 1) != nil, result == result_of(newInstance, 1) && calls(instance.Run) == 0)
+//@ ensures [run-outcome-is-returned] imp(result_of(newInstance, 1) == nil, calls(instance.Run) == 1 && result == result_of(instance.Run, 0))
 //@ at call newInstance assert [same-id] arg(id) == id0 && arg(ctx) == ctx0
+//@ at call instance.Run assert [same-context] arg(ctx) == ctx0
 //@ ghost arg_ok = true
 
 // The start-up loop: one instance per start-up token, ids 0,1,2,... in spawn order.
